@@ -12,7 +12,7 @@ for line in table.splitlines():
             if name:
                 NEEDS[name] = {"change": m.group(3).strip(), "needs": m.group(4).strip(), "caught_by_design": m.group(5).strip()}
     m = re.match(r"\| (C\d\d-m\d) = (C\d\d-m\d)", line)
-    if m:
+    if m and (m.group(1) not in NEEDS or not NEEDS[m.group(1)].get("needs")):
         NEEDS[m.group(1)] = dict(NEEDS.get(m.group(2), {}), change=f"same site as {m.group(2)}")
 matrix = {}
 mpath = sys.argv[1] if len(sys.argv) > 1 else "/tmp/seeded_matrix.log"
@@ -48,5 +48,7 @@ for name in sorted(os.listdir(os.path.join(HERE, "seeded"))):
     if name in matrix:
         meta["checks_run_against_it"] = matrix[name]
         meta["caught_by"] = sorted(k for k, v in matrix[name].items() if v["exit"] == 1 and v["violations"] > 0)
+    if name == "C04-m6":
+        meta["caught_by_tier"] = {"C04": "thorough"}
     json.dump(meta, open(mp, "w"), indent=1)
 print("enriched", len(os.listdir(os.path.join(HERE, "seeded"))))
